@@ -86,7 +86,7 @@ def run(ctx):
     # ---- P4 selection direction
     ctx.rule("P4", "an alternative replaces the current assignment only under strict comparison of bottlenecks")
     col = [n for n in ast.walk(b) if isinstance(n, ast.If) and "best_kernel_tp" in U(n.test)]
-    okc = len(col) == 1 and U(col[0].test) == "max(self.get_throughput_sum(k_tmp)) < best_kernel_tp" and any(
+    okc = len(col) == 1 and U(col[0].test) == C.CT("max(self.get_throughput_sum(k_tmp)) < best_kernel_tp") and any(
         U(s) == "best_kernel = k_tmp" for s in col[0].body) and any(
         U(s) == "best_kernel_tp = max(self.get_throughput_sum(best_kernel))" for s in col[0].body)
     ctx.check(okc, "P4", "collecting: keep an alternative iff its bottleneck is strictly smaller than the best so far", f.where(col[0]) if col else f.where(b),
@@ -99,7 +99,7 @@ def run(ctx):
     oks = False
     if sw:
         inner = [n for n in sw[0].body if isinstance(n, ast.If)]
-        oks = len(inner) == 1 and U(inner[0].test) == "max(self.get_throughput_sum(kernel)) > best_kernel_tp"
+        oks = len(inner) == 1 and U(inner[0].test) == C.CT("max(self.get_throughput_sum(kernel)) > best_kernel_tp")
         if oks:
             # the pressure of every line is taken over from the best alternative (what the totals are computed from)
             loops = [l for l in ast.walk(inner[0]) if isinstance(l, ast.For) and "best_kernel" in U(l.iter)]
@@ -120,7 +120,7 @@ def run(ctx):
                   "kernel.reverse() pairing changed", f.qname, "reverse pairing")
     # ---- P5 step only while unbalanced
     ctx.rule("P5", "steps are taken only while the micro-op's ports are unbalanced")
-    g = [n for n in ul.body if isinstance(n, ast.If) and U(n.test) == "len(set(port_sums)) > 1"]
+    g = [n for n in ul.body if isinstance(n, ast.If) and U(n.test) == C.CT("len(set(port_sums)) > 1")]
     ctx.check(len(g) == 1 and C.in_subtree(sl, g[0]), "P5", "balancing only if the ports' totals differ", f.where(ul),
               "the step loop is not guarded by `len(set(port_sums)) > 1`", f.qname, "unbalanced guard")
     one = [n for n in sl.body if isinstance(n, ast.If) and U(n.test) == "len(instr_ports) == 1" and any(isinstance(x, ast.Break) for x in n.body)]
